@@ -5,7 +5,7 @@ cd "$(dirname "$0")"; HERE=$(pwd)
 jobs_file=$(mktemp)
 for d in seeded/C*-*/; do
   id=$(basename $d | cut -d- -f1)
-  grep -q "NOT-COUNTED" $d/meta.json 2>/dev/null && continue   # see the note in its meta.json
+  grep -q "NOT-COUNTED\|beyond bounds" $d/meta.json 2>/dev/null && continue   # see the note in its meta.json
   echo "$d/patch.diff $id" >> $jobs_file
 done
 declare -A REV=( [064554a]=C10 [c03c8aa]=C19 [d7d73a9]=C18 [eb5ad18]=C08 [50b589b]=C08 [e8d8af7]=C07 [16c3907]=C20 [55ee4f6]=C14 [f65aaf5]=C14 [745e40a]=C13 [24eca2f]=C02 [e99941d]=C01 [d54b309]=C01 )
